@@ -14,7 +14,8 @@ PRE = ['pre', 'code']
 RAW = ['script', 'style']
 ANAMES = ['id', 'title', 'data-x', 'data-y', 'checked', 'hidden', 'open', 'class', 'style', 'href', 'lang']
 AVALS = ['v', '', 'two words', 'q"q', "it's", '<b>', 'a>b', 'é', '7', 'x  y', 'next >', 'a /> b', 'n > 3']
-TEXTS = ['x', 'yy', ' ', '\n', ' a b ', '&amp;', '&#65;', '&lt;tag&gt;', '<!--c-->', '<!-- c -->', 'é', 'a > b', 'x\ty', '  ']
+TEXTS = ['x', 'yy', ' ', '\n', ' a b ', '&amp;', '&#65;', '&lt;tag&gt;', '<!--c-->', '<!-- c -->', 'é', 'a > b', 'x\ty', '  ',
+         '<!--\tcol1\tcol2\t-->', '<!--\n  multi\n  line\n-->']
 
 
 def gen_tree(rng, depth=0, maxdepth=4, budget=None):
